@@ -328,7 +328,10 @@ def evalWith (ap : Ap) (p : Program) : Nat → Ev
     | .forE _ _ dest iter body =>
       let ri := ev σ out iter
       match ri.outcome with
-      | .val (.list items) => forLoop ev dest body items ri.scopes ri.out
+      | .val (.list items) =>
+        -- the implementation indexes with an i64; a list of 2^63 items cannot exist in memory
+        if items.length < 9223372036854775808 then forLoop ev dest body items ri.scopes ri.out
+        else ⟨ri.scopes, ri.out, .unsupported "list of 2^63 or more items"⟩
       | .val _ => ⟨ri.scopes, ri.out, .err (.typeError "List")⟩
       | _ => ri
     | .ret _ _ inner =>
